@@ -144,4 +144,6 @@ class Attached(Property):
         return modobj
 
     def copy(self):
-        return Attached(self.basecls, self.description, self.mandatory)
+        res = Attached(self.basecls, self.description, self.mandatory)
+        res.name = self.name  # needed when a subclass fixes the attached module with a bare value
+        return res
